@@ -30,7 +30,7 @@ func init() {
 			if tier == "thorough" {
 				return 2000
 			}
-			return 192
+			return 320
 		},
 		Run:  runC18,
 		Need: []string{"key_pairs", "keeper_entities"},
